@@ -1669,22 +1669,25 @@ static int cif_buf_write(write_buffer_tp *buf, const void *src, size_t len) {
         do {
             proposed_cap = (working_cap * 3) >> 1;
 
-            if (proposed_cap < working_cap) { /* overflow */
+            if (proposed_cap <= working_cap) { /* overflow, or too small to grow by a factor */
                 /* fall back to requesting only what is imminently needed */
                 proposed_cap = needed_cap;
             }
+            working_cap = proposed_cap;
         } while (proposed_cap < needed_cap);
 
         /* reallocate the buffer space */
         new_start = (char *) realloc(buf->start, proposed_cap);
         if ((new_start == NULL) && (needed_cap < proposed_cap)) {
-            new_start = (char *) realloc(buf->start, needed_cap);
+            proposed_cap = needed_cap;
+            new_start = (char *) realloc(buf->start, proposed_cap);
         }
 
         if (new_start == NULL) {
             return CIF_MEMORY_ERROR;
         } else {
             buf->start = new_start;
+            buf->capacity = proposed_cap;
         }
     }
 
